@@ -27,6 +27,7 @@ type dsState struct {
 	calls  []string
 	op     string
 	n      int
+	base   int // operands consumed from the bottom of the stack (the width)
 	broken bool
 }
 
@@ -47,7 +48,7 @@ func (in *dsInterp) win(e ast.Expr) (dsWin, bool) {
 	switch x := e.(type) {
 	case *ast.Ident:
 		if x.Name == "stack" {
-			return dsWin{0, in.st.n}, true
+			return dsWin{in.st.base, in.st.n - in.st.base}, true
 		}
 		w, ok := in.st.wins[x.Name]
 		return w, ok
@@ -347,6 +348,19 @@ func (in *dsInterp) stmt(s ast.Stmt) {
 			in.st.calls = append(in.st.calls, id.Name+"("+strings.Join(args, ",")+")")
 		case "clearStack":
 			in.st.broken = true
+		case "setGlyphWidth":
+			// the first stack-clearing operator: an extra bottom operand is the width
+			if len(call.Args) == 1 {
+				c, ok := in.boolv(call.Args[0])
+				if !ok {
+					in.fail("argument of setGlyphWidth is not understood")
+					return
+				}
+				if c {
+					in.st.calls = append(in.st.calls, fmt.Sprintf("width(s%d)", in.st.base))
+					in.st.base++
+				}
+			}
 		}
 	case *ast.IfStmt:
 		c, ok := in.boolv(x.Cond)
@@ -431,6 +445,27 @@ func pathSpec(op string, n int) ([]string, bool) {
 	line := func(a, b string) { out = append(out, "rLineTo("+a+","+b+")") }
 	curve := func(a ...string) { out = append(out, "rCurveTo("+strings.Join(a, ",")+")") }
 	switch op {
+	case "t2rmoveto", "t2hmoveto", "t2vmoveto":
+		k := 2
+		if op != "t2rmoveto" {
+			k = 1
+		}
+		if n != k && n != k+1 {
+			return nil, false
+		}
+		b := 0
+		if n == k+1 {
+			out = append(out, "width(s0)")
+			b = 1
+		}
+		switch op {
+		case "t2rmoveto":
+			out = append(out, "rMoveTo("+s(b)+","+s(b+1)+")")
+		case "t2hmoveto":
+			out = append(out, "rMoveTo("+s(b)+",0)")
+		default:
+			out = append(out, "rMoveTo(0,"+s(b)+")")
+		}
 	case "t2rlineto":
 		if n < 2 || n%2 != 0 {
 			return nil, false
@@ -519,7 +554,7 @@ func pathSpec(op string, n int) ([]string, bool) {
 }
 
 func checkDecodeSem(w *World, r *Report) {
-	r.Rule("decodesem: for rlineto, hlineto, vlineto, rrcurveto, rcurveline, rlinecurve, hhcurveto, vvcurveto, hvcurveto, vhcurveto the case clause of decodeCharString, interpreted with a concrete operand count n (every legal n up to 17) and symbolic operands, issues exactly the rLineTo/rCurveTo calls that TN5177 4.1 defines for that operator and count — which operand becomes which delta, the horizontal/vertical alternation, the optional leading operand of hh/vvcurveto and the trailing one of hv/vhcurveto")
+	r.Rule("decodesem: for rmoveto, hmoveto, vmoveto (with and without the leading width operand), rlineto, hlineto, vlineto, rrcurveto, rcurveline, rlinecurve, hhcurveto, vvcurveto, hvcurveto, vhcurveto the case clause of decodeCharString, interpreted with a concrete operand count n (every legal n up to 17) and symbolic operands, issues exactly the rLineTo/rCurveTo calls that TN5177 4.1 defines for that operator and count — which operand becomes which delta, the horizontal/vertical alternation, the optional leading operand of hh/vvcurveto and the trailing one of hv/vhcurveto")
 	pkg := w.All[modPath+"/cff"]
 	if pkg == nil {
 		r.Fatal("package cff not loaded")
@@ -546,7 +581,7 @@ func checkDecodeSem(w *World, r *Report) {
 		}
 		return true
 	})
-	ops := []string{"t2rlineto", "t2hlineto", "t2vlineto", "t2rrcurveto", "t2rcurveline", "t2rlinecurve", "t2hhcurveto", "t2vvcurveto", "t2hvcurveto", "t2vhcurveto"}
+	ops := []string{"t2rmoveto", "t2hmoveto", "t2vmoveto", "t2rlineto", "t2hlineto", "t2vlineto", "t2rrcurveto", "t2rcurveline", "t2rlinecurve", "t2hhcurveto", "t2vvcurveto", "t2hvcurveto", "t2vhcurveto"}
 	for _, op := range ops {
 		cc := clauses[op]
 		key := r.MkKey("decodesem", "decodeCharString", "operator "+strings.TrimPrefix(op, "t2"))
@@ -578,5 +613,5 @@ func checkDecodeSem(w *World, r *Report) {
 			r.Fail("decodesem", key, w.Pos(cc.Pos()), strings.TrimPrefix(op, "t2")+" "+bad, nil)
 		}
 	}
-	r.Floor("decodesem", 10)
+	r.Floor("decodesem", 13)
 }
